@@ -318,7 +318,7 @@ def translate():
 # ----------------------------------------------------------------------------------------
 THEOREMS = [
     # read: one record per run, in order, header tokens as columns, printed rows row for row (incl. truncated last run)
-    'C19.read_tables', 'C19.read_layout', 'C19.read_render',
+    'C19.read_tables', 'C19.read_layout', 'C19.read_render', 'C19.read_breakdown',
     # read(append=True/False)
     'C19.read_append', 'C19.read_reset', 'C19.append_concat',
     # version string and date
@@ -332,11 +332,11 @@ THEOREMS = [
     'C19.flatten_first_complete', 'C19.flatten_last_complete',
 ]
 PARTIAL = {
-    'timing breakdown': 'read_render (exact resulting state, incl. that read() does not raise) is proved for logs without a '
-                        'timing-breakdown trigger line; with breakdowns the thermo clause is proved conditionally on '
-                        'read() returning (read_layout) and unconditionally for the table reads themselves (read_tables): '
-                        'that the performance-table reads of a well-formed breakdown never raise is checked by the '
-                        'correspondence only',
+    'timing breakdown': 'read_breakdown (read() returns and the records are right) covers the `MPI task timing breakdown` '
+                        'layout with well-formed blocks; the old `Pair  time (%) = …` layout and malformed/unterminated '
+                        'blocks are covered for the thermo clause by read_tables (unconditional) and read_layout '
+                        '(conditional on read() returning), their non-raising by the correspondence only; the content of '
+                        'the performance tables is not part of the property and compared in the correspondence only',
     'value by value': 'the theorems are about the printed tokens (strings); that pandas turns the token of an int/float '
                       'column into the number it denotes is an assumption, checked by the oracle on the real code',
     'flatten with empty runs': 'flatten_first needs a non-empty first run and flatten_last non-empty later runs (pandas '
@@ -363,6 +363,8 @@ ASSUMPTIONS = [
     'values of the table are the printed values; "nan"/"inf" tokens become NaN/inf',
     'pandas comparisons with the NaN max()/min() of an empty column are False (mergeFirst/mergeLast on empty tables)',
     'datetime.date(y, m, d) accepts exactly 1<=y<=9999, 1<=m<=12, 1<=d<=days in month (Gregorian leap rule)',
+    'pandas quirk kept out of the generated logs: the token -9223372036854775808 in an otherwise integer column that also '
+    'holds a nan token is read as NaN (int64 NA sentinel)',
     'str.split()/strip() whitespace on the log lines is ASCII whitespace (the synthesised logs contain no other Unicode '
     'whitespace)',
     'uber_open_rmode presents text, bytes, path and stream input as the same sequence of lines',
@@ -379,7 +381,7 @@ MANIFEST = {
             'printed lines as rows; a log printed from a token-level specification is read back exactly (tables, version, '
             'date); append concatenates and append=False resets; flatten all = concatenation; first/last keep exactly the '
             'rows not superseded by an earlier/later run, each step once, from the earliest/latest run printing it, sorted, '
-            'complete on aligned grids. Tie: translator for the constants + differential correspondence real Log vs '
+            'complete on aligned grids; logs with well-formed MPI timing-breakdown blocks are read without exception. Tie: translator for the constants + differential correspondence real Log vs '
             'compiled model on synthesised histories (exact on integers, 16 ulp on floats); failing-input search with the '
             'property clauses evaluated on the real code from the run specifications alone.',
     'note': 'Trusted: Lean kernel + propext/Classical.choice/Quot.sound; pandas read_csv/concat behaviour as stated in '
@@ -1142,7 +1144,7 @@ def compare_history(impl_out, replies):
 def correspond(ctx):
     cm.build_tree()
     rng = ctx.rng
-    N = ctx.n(450, 4000)
+    N = ctx.n(330, 4000)
     files = _Files()
     try:
         hist = []
@@ -1345,7 +1347,7 @@ def check_history_clauses(logs, ops, impl_out):
 def search(ctx, broken):
     cm.build_tree()
     rng = random.Random(ctx.seed * 7919 + 19)
-    N = ctx.n(550, 3000) * (3 if broken else 1)
+    N = ctx.n(400, 3000) * (3 if broken else 1)
     files = _Files()
     shrunk = set()
     # other Log objects already lived in this process (correspond): in a replay a canned one stands for them
